@@ -207,6 +207,7 @@ class CWorld:
         self.max_sent = base - 1
         self.max_wire = -1
         self.n_inj = 0
+        self.n_failed = 0                   # injections whose serialization failed: an id was drawn but never reached the wire
         self.oos: set = set()               # endpoint ids that were out of scope when first forwarded (never asserted)
         self.violations: List[Dict[str, Any]] = []
         # prime the inbound side with packet id 1: every later carrier of the ack observation reuses that id, so the observation
@@ -228,6 +229,13 @@ class CircuitHarness:
 
     def fresh(self) -> CWorld:
         return CWorld(self.maxlen, self.base)
+
+    def _evicted(self, w: CWorld, injected=None) -> list:
+        """Injections that may have aged out of the tracker's window. An injection whose serialization failed may or may not keep
+        its window slot (unspecified), so each one is counted as occupying a slot: conservative, only shrinks the asserted scope."""
+        inj = w.injected if injected is None else injected
+        k = len(inj) + w.n_failed - self.maxlen
+        return inj[:min(len(inj), k)] if k > 0 else []
 
     @staticmethod
     def _wire_acks(data: bytes):
@@ -251,7 +259,7 @@ class CircuitHarness:
         re-uses the endpoint's newest packet id, so the observation leaves the trackers as they are."""
         if w.max_sent < w.base or w.max_sent not in w.sent:
             return
-        evicted = w.injected[:-self.maxlen] if len(w.injected) > self.maxlen else []
+        evicted = self._evicted(w)
         newest_evicted = evicted[-1] if evicted else -1
         inj_all = set(w.injected)
         todo = [(n, wire) for n, wire in sorted(w.sent.items()) if wire > newest_evicted and n not in w.oos and wire not in inj_all]
@@ -290,7 +298,7 @@ class CircuitHarness:
         inbound packet acknowledging them (appended to a forwarded packet, in a PacketAck body, appended to a dropped packet)
         must reach the viewer acknowledging exactly the original ids of the non-injected ones (as a multiset; order is not stated). The carrier
         packets all carry inbound packet id 1, so the observation leaves the circuit's state as the first of them left it."""
-        evicted = w.injected[:-self.maxlen] if len(w.injected) > self.maxlen else []
+        evicted = self._evicted(w)
         newest_evicted = evicted[-1] if evicted else -1
         inj_all = set(w.injected)
         expect: Dict[int, Any] = {}
@@ -343,6 +351,8 @@ class CircuitHarness:
 
     def enabled(self, w: CWorld):
         evs = [("S", 0), ("S", 1), ("I",), ("G", 1), ("D", 0), ("D", 1), ("T", 1)]
+        if w.n_failed == 0:
+            evs.append(("IF",))     # an injected message that cannot be serialized (a variable left unset): at most once per history
         for n in range(w.base, w.max_sent + 1):
             evs.append(("O", n, 0))
             if n not in w.sent:
@@ -355,7 +365,7 @@ class CircuitHarness:
 
     def canon(self, w: CWorld):
         return (_tstate(w.c.out_injections), _tstate(w.c.in_injections),
-                tuple(sorted(w.sent.items())), tuple(w.injected), tuple(w.dropped), w.max_sent, tuple(sorted(w.oos)))
+                tuple(sorted(w.sent.items())), tuple(w.injected), tuple(w.dropped), w.max_sent, tuple(sorted(w.oos)), w.n_failed)
 
     def nontrivial(self, w: CWorld, hist):
         if w.injected and w.dropped:
@@ -386,7 +396,13 @@ class CircuitHarness:
             w.violations.append({"clause": clause, "site": site, "detail": detail})
 
         try:
-            if kind == "I":
+            if kind == "IF":
+                w.n_failed += 1
+                try:
+                    w.c.send(Message("TeleportStart", Block("Info"), packet_id=None, flags=0, direction=Direction.OUT))
+                except Exception:
+                    pass        # the refusal itself is expected; what matters is every translation afterwards
+            elif kind == "I":
                 w.n_inj += 1
                 w.c.send(self._msg(INJ_TAG | w.n_inj, None, 0))
             else:
@@ -421,7 +437,7 @@ class CircuitHarness:
         # scope (as in the tracker search): laws are asserted for endpoint IDs whose wire position lies above the newest
         # injection that has aged out of the tracker's window at the time of the step
         pre_inj = list(w.injected)
-        ev_list = pre_inj[:-self.maxlen] if len(pre_inj) > self.maxlen else []
+        ev_list = self._evicted(w, pre_inj)
         newest_evicted = ev_list[-1] if ev_list else -1
 
         def ref_wire(n: int) -> int:
@@ -469,7 +485,7 @@ class CircuitHarness:
 
     def oracle(self, w: CWorld, bad):
         t = w.c.out_injections
-        evicted = w.injected[:-self.maxlen] if len(w.injected) > self.maxlen else []
+        evicted = self._evicted(w)
         newest_evicted = evicted[-1] if evicted else -1
         window = w.injected[len(evicted):]
         inj_all = set(w.injected)
@@ -503,7 +519,7 @@ def run(run: Run):
     depth = 8 if run.tier == "quick" else 10
     devb = 3 if run.tier == "quick" else 4
     run.rule = ("explicit-state BFS over {S, G(1|2), O(n), I} on the real InjectionTracker with window maxlen in {1,2,3}, plus a second "
-                "search over {S, S-first-sight-RESENT, G, O(n), O(n)-RESENT, I, D(rop), T(ake+reinject), DO(n)} on a real ProxiedCircuit "
+                "search over {S, S-first-sight-RESENT, G, O(n), O(n)-RESENT, I, I-that-fails-to-serialize, D(rop), T(ake+reinject), DO(n)} on a real ProxiedCircuit "
                 "(tracker window 2 and 10000 with the endpoint numbering from 1, window 2 numbering from 0) observing packet ids on the captured datagrams and, in every state, the acks that reach the viewer for "
                 "every ordered list of up to 3 of the newest 3 (thorough: 4) wire ids acknowledged by an inbound packet (appended / PacketAck body / "
                 "appended to a dropped packet), and the OldestUnacked a forwarded StartPingCheck carries for every in-scope id sent so far; "
